@@ -1,7 +1,19 @@
-"""Shared rule A14.str-ops: the string operations applied inside a set of modules equal the frozen inventory."""
+"""Shared rule A14.str-ops: the string operations applied inside a property's anchor functions equal the frozen
+inventory.
+
+The inventory (tables/str_ops.json) records, per library function (closures folded into it), how often each
+character-dropping / altering / searching / tokenising `str` operation is applied, plus the list of all library
+functions at the time of review.  A property's *scope* is the set of functions under its anchor prefixes **plus
+every function that did not exist at review time and is reachable from the scope through such new functions only**
+(an extracted or hoisted helper stays in the scope it was extracted from).  The verdict is per (scope, operation):
+the number of applications inside the scope equals the reviewed number.  Renaming locals, reordering code, moving an
+operation between functions of the scope or into a new helper leaves the verdict unchanged; adding, dropping or
+replacing an operation does not.  The rule decides "these strings are cut up the reviewed way", not that the reviewed
+way is right."""
 import collections
 import json
 import os
+import re
 
 STR_OPS = (
     "trim", "trim_start", "trim_end", "trim_matches", "trim_start_matches", "trim_end_matches", "replace", "replacen", "to_lowercase", "to_uppercase",
@@ -12,6 +24,10 @@ STR_OPS = (
 TABLE = os.path.join(os.path.dirname(os.path.dirname(os.path.abspath(__file__))), "tables", "str_ops.json")
 
 
+def strip_closures(path):
+    return re.sub(r"(::\{closure#\d+\})+", "", path)
+
+
 def is_str_op(c):
     last = c.path.split("::")[-1]
     if last not in STR_OPS:
@@ -20,32 +36,79 @@ def is_str_op(c):
     return "<impl str>" in p or "string::string" in p or p.startswith("core::str::") or p.startswith("std::str::")
 
 
-def check(prog, chk, prefixes, what):
-    """prefixes: function-path prefixes (closures folded) that make up the scope"""
-    from props.C01 import strip_closures
-
-    with open(TABLE) as fh:
-        table = {(e["function"], e["op"]): e["count"] for e in json.load(fh)["entries"]}
+def survey(prog):
+    """(per-function op counts, first location per (function, op), call edges between library functions, all library functions)"""
     cnt = collections.Counter()
     where = {}
-    for b in prog.bodies.values():
-        if b.unit != "svgdx-lib":
-            continue
+    edges = collections.defaultdict(set)
+    funcs = set()
+    lib = [b for b in prog.bodies.values() if b.unit == "svgdx-lib"]
+    for b in lib:
+        funcs.add(strip_closures(b.path))
+    for b in lib:
         f = strip_closures(b.path)
-        if not f.startswith(tuple(prefixes)):
-            continue
-        for (bb, t, c) in b.call_sites(is_str_op):
-            k = (f, c.path.split("::")[-1])
-            cnt[k] += 1
-            where.setdefault(k, b.where(bb, t.get("line")))
-    scope = {k for k in table if k[0].startswith(tuple(prefixes))}
-    n = 0
-    for k in sorted(set(cnt) | scope):
-        n += 1
-        have, want = cnt.get(k, 0), table.get(k, 0)
-        short = k[0].replace("svgdx::", "")
-        chk.ob(have == want, "A14.str-ops", f"{short}:{k[1]}", where.get(k, "-"), f"{k[1]}() x{want} as in the reviewed inventory", f"{short} now applies str::{k[1]}() {have} time(s) (reviewed inventory: {want}): the way {what} is cut up, matched or cleaned has changed - characters can be dropped, altered or attributed to the wrong token. Review and regenerate policy/tables/str_ops.json if intended.", by="table")
-    return n
+        for (bb, t, c) in b.call_sites(lambda c: True):
+            if is_str_op(c):
+                k = (f, c.path.split("::")[-1])
+                cnt[k] += 1
+                where.setdefault(k, b.where(bb, t.get("line")))
+            else:
+                g = strip_closures(c.path)
+                if g in funcs and g != f:
+                    edges[f].add(g)
+    return cnt, where, edges, funcs
+
+
+def load_table():
+    with open(TABLE) as fh:
+        d = json.load(fh)
+    return {(e["function"], e["op"]): e["count"] for e in d["entries"]}, set(d["functions"])
+
+
+def check(prog, chk, prefixes, what):
+    table, known = load_table()
+    cnt, where, edges, funcs = survey(prog)
+    pre = tuple(prefixes)
+    scope = {f for f in funcs if f.startswith(pre)}
+    new = funcs - known
+    work = list(scope)
+    while work:
+        f = work.pop()
+        for g in edges.get(f, ()):
+            if g in new and g not in scope:
+                scope.add(g)
+                work.append(g)
+    have = collections.Counter()
+    for (f, op), n in cnt.items():
+        if f in scope:
+            have[op] += n
+    want = collections.Counter()
+    for (f, op), n in table.items():
+        if f.startswith(pre):
+            want[op] += n
+    n_ob = 0
+    for op in sorted(set(have) | set(want)):
+        n_ob += 1
+        diff = []
+        loc = "-"
+        for f in sorted({f for (f, o) in list(cnt) + list(table) if o == op and (f in scope or f.startswith(pre))}):
+            a, b = cnt.get((f, op), 0) if f in scope else 0, table.get((f, op), 0)
+            if loc == "-" and (f, op) in where:
+                loc = where[(f, op)]
+            if a != b:
+                diff.append(f"{f.replace('svgdx::', '')}: {b} -> {a}")
+                loc = where.get((f, op), loc)
+        chk.ob(
+            have[op] == want[op],
+            "A14.str-ops",
+            op,
+            loc,
+            f"str::{op}() is applied {want[op]} time(s) in the functions that handle {what}, as in the reviewed inventory",
+            f"str::{op}() is now applied {have[op]} time(s) in the functions that handle {what} (reviewed inventory: {want[op]}; {'; '.join(diff)}): the way {what} is cut up, matched or cleaned has changed - characters can be dropped, altered or attributed to the wrong token. Review, then regenerate policy/tables/str_ops.json (tools/gen_str_ops.py) if intended.",
+            by="table",
+        )
+    chk.floor("A14.str-ops", sum(want.values()), 1, f"string operation in the reviewed inventory for {what}")
+    return n_ob
 
 
 S = "svgdx::"
